@@ -204,6 +204,19 @@ CLAIMED = {
         note=TB + "The re engine is trusted both as the translator's oracle for character classes and as the implementation; str.isdigit / int() tables are measured.",
         technique="Coq proof: verified regex-vs-automaton bisimulation check re-run against regexes regenerated from the source + automaton-meaning inductions + finite tables by vm_compute; vm_compute correspondence; exhaustive one-character sweep",
         ref='6/C18'),
+    'C15': dict(
+        text=("Proof (partial): on the LTS of the send gate (write / pause_writing / resume_writing / connection_lost / send "
+              "deadline over asyncio.Event), for EVERY label sequence: nothing is written while the transport reports its buffer "
+              "full (also not by writers released together when the first refills the buffer); reading is paused exactly while "
+              "the gate is closed; each message reaches the transport at most once and only from a completed write; a resume "
+              "releases every blocked writer; a writer blocked for max_send_delay aborts the connection and gets TaskTimeout; "
+              "connection loss releases all blocked writers, which then write nothing. Whether a woken writer re-checks the "
+              "gate is probed on the running RSTransport and USTransport on every run. The property was FALSE on the original "
+              "tree (F14): repaired by a fix: commit. Correspondence: scenarios on a real session over both transport classes "
+              "and a fake asyncio transport with a high-water mark (wire order, blind writes, time-outs, reading flag)."),
+        note=TB + "Partial: asyncio's Event waiter order and the real transports' buffering are trusted; timer ties (a stall ending exactly when another event is due) are avoided by the generator.",
+        technique="Coq proof (LTS invariants by induction over label lists; counting argument for at-most-once) + behavioural probe fact + vm_compute scenario correspondence",
+        ref='6/C15'),
 }
 
 REASONS = {}
